@@ -73,6 +73,13 @@ def name_class(name: str) -> str:
     return 'name-plain'
 
 
+def loadable_plain_name(name: str) -> bool:
+    """Own statement of which names the direct route may use."""
+    cv = M.compvar(name)
+    return (cv.isidentifier() and not keyword.iskeyword(cv)
+            and cv != '__debug__' and cv.isascii())
+
+
 def cylc_accepts_output_name(name: str) -> bool:
     """Input-domain filter: is `name` a legal custom output name?"""
     from cylc.flow.unicode_rules import TaskOutputValidator
